@@ -1,7 +1,7 @@
 import Qryn.LogQL.Planner
-/-! C14: a prepared plan is an object with state. `WithConnectorPlanner` caches the fingerprint sub-query
-    (`fpCache`) on first use and re-uses that object on every later `Process`, so the fingerprint chain of a
-    re-executed plan is the one built for the FIRST context, while everything else follows the current one. -/
+/-! C14: a prepared plan is an object with state. `WithConnectorPlanner` memoizes the fingerprint sub-query
+    (`fpCache`) during a `Process`; the top-level `cacheResetPlanner` (the `fix:` for re-execution) clears the
+    memo at the start of every `Process`, so each execution builds the chain for the context it is given. -/
 namespace Qryn.LogQL
 open Qryn Qryn.Sql
 
@@ -20,9 +20,13 @@ def chainOf (c : Ctx) (q : LogQuery) : List (Alias × Sel) := fpChain c (streamS
 structure PlanState where
   fpCache : Option (List (Alias × Sel)) := none
 
-/-- one `Process(ctx)` of a prepared plan -/
+/-- `cacheResetPlanner.Process`: forget what the previous execution memoized -/
+def PlanState.reset (_ : PlanState) : PlanState := ⟨none⟩
+
+/-- one `Process(ctx)` of a prepared plan: reset, then the first planner that needs the fingerprint
+    sub-query builds and memoizes it, the others re-use the memo -/
 def process (st : PlanState) (c : Ctx) (q : LogQuery) : PlanState × Sel :=
-  let chain := st.fpCache.getD (chainOf c q)
+  let chain := st.reset.fpCache.getD (chainOf c q)
   (⟨some chain⟩, planLogWith chain c q)
 
 /-- the statements of successive executions -/
